@@ -27,7 +27,7 @@ def helper_units():
         var = 'ciphers_supported' if 'cipher' in fn else 'macs_supported'
         U.append(Unit(Contract('ssh_audit:post_process_findings.' + fn, setup=setup_helper, raises={},
                                ensures=["result == %s(%s if client_audit else %s)" % (spec, lists[0], lists[1])],
-                               loops={1: dict(invariant=["ret == %s(%s[:_k])" % (spec, var)], types={'ret': 'list[str]'})}),
+                               loops={1: dict(header='for %s in %s' % ('cipher' if 'cipher' in fn else 'mac', var), invariant=["ret == %s(%s[:_k])" % (spec, var)], types={'ret': 'list[str]'})}),
                       harness=None))
     return U
 
@@ -197,10 +197,10 @@ def body_units():
         return ["implies(%s, %s == %s)" % (S_, ghost_or_var, strict_val), "implies(not %s, %s == %s)" % (S_, ghost_or_var, plain_val)]
     loops = {
         # (loop ordinals in source order inside the function body, nested helper definitions excluded)
-        'chacha': dict(invariant=both("ghost('marked_enc')", "[]", "%s[:_k]" % CH) + both("algs_to_note", "%s[:_k]" % CH, "[]"), ghost=['marked_enc'], types={'algs_to_note': 'list[str]'}),
-        'cbc': dict(invariant=both("ghost('marked_enc')", "[]", "%s + cbc_ciphers_enabled[:_k]" % CH) + both("algs_to_note", "%s + cbc_ciphers_enabled[:_k]" % CH, "[]"),
+        'chacha': dict(header='for chacha_cipher in _get_chacha_ciphers_enabled(algs)', invariant=both("ghost('marked_enc')", "[]", "%s[:_k]" % CH) + both("algs_to_note", "%s[:_k]" % CH, "[]"), ghost=['marked_enc'], types={'algs_to_note': 'list[str]'}),
+        'cbc': dict(header='for cipher in cbc_ciphers_enabled', invariant=both("ghost('marked_enc')", "[]", "%s + cbc_ciphers_enabled[:_k]" % CH) + both("algs_to_note", "%s + cbc_ciphers_enabled[:_k]" % CH, "[]"),
                     ghost=['marked_enc'], types={'algs_to_note': 'list[str]'}),
-        'etm': dict(invariant=both("ghost('marked_mac')", "[]", "etm_macs_enabled[:_k]") + both("algs_to_note", "%s + cbc_ciphers_enabled + etm_macs_enabled[:_k]" % CH, "[]"),
+        'etm': dict(header='for mac in etm_macs_enabled', invariant=both("ghost('marked_mac')", "[]", "etm_macs_enabled[:_k]") + both("algs_to_note", "%s + cbc_ciphers_enabled + etm_macs_enabled[:_k]" % CH, "[]"),
                     ghost=['marked_mac'], types={'algs_to_note': 'list[str]'}),
     }
     ens = []
